@@ -127,61 +127,127 @@ func checkInstallStaging(c *core.Ctx) {
 	var evs []ev
 	var renameDst ast.Expr
 	bad := ""
-	ast.Inspect(fn.Decl.Body, func(n ast.Node) bool {
-		call, ok := n.(*ast.CallExpr)
-		if !ok {
-			return true
+	// The file operations of Install in source order (= execution order in this straight-line function), with the
+	// unexported helpers it hands steps to followed in place: inside a helper a path is "under the staging directory"
+	// when it derives from a parameter that was handed such a path, and a parameter stands for its argument.
+	type frame struct {
+		fr     *core.FuncRef
+		staged map[types.Object]bool     // parameters handed a staged path
+		args   map[types.Object]ast.Expr // parameters → argument expressions (in the caller's frame)
+		up     *frame
+	}
+	var isStaged func(f *frame, e ast.Expr) bool
+	isStaged = func(f *frame, e ast.Expr) bool {
+		if f.up == nil {
+			return derivesFrom(f.fr, e, staging, 0)
 		}
-		name := p.CalleeName(info, call)
-		switch {
-		case name == "os.Create" || name == "os.OpenFile" || name == "os.WriteFile":
-			evs = append(evs, ev{"create", call.Pos(), call.Args[0]})
-			if !derivesFrom(fn, call.Args[0], staging, 0) {
-				bad = fmt.Sprintf("%s: %s(%s) writes outside the staging directory", p.Pos(call.Pos()), name, core.ExprStr(call.Args[0]))
+		for prm := range f.staged {
+			if derivesFrom(f.fr, e, prm, 0) {
+				return true
 			}
-		case len(paramCreates(p, fn, call)) > 0:
-			// a helper that creates the file named by one of its parameters: the file is the argument handed to it
-			for _, k := range paramCreates(p, fn, call) {
-				evs = append(evs, ev{"create", call.Pos(), call.Args[k]})
-				if !derivesFrom(fn, call.Args[k], staging, 0) {
-					bad = fmt.Sprintf("%s: %s creates the file %s outside the staging directory", p.Pos(call.Pos()), name, core.ExprStr(call.Args[k]))
-				}
+		}
+		return false
+	}
+	// an expression as the root sees it, where it is just a parameter
+	var rooted func(f *frame, e ast.Expr) ast.Expr
+	rooted = func(f *frame, e ast.Expr) ast.Expr {
+		for f != nil && f.up != nil {
+			id, ok := core.Unparen(e).(*ast.Ident)
+			if !ok {
+				break
 			}
-		case strings.HasSuffix(name, ".Unarchive") && len(call.Args) == 2:
-			evs = append(evs, ev{"unarchive", call.Pos(), call.Args[1]})
-			if !derivesFrom(fn, call.Args[1], staging, 0) {
-				bad = fmt.Sprintf("%s: the archive is unpacked into %s, not into the staging directory", p.Pos(call.Pos()), core.ExprStr(call.Args[1]))
+			a, ok := f.args[f.fr.Info().Uses[id]]
+			if !ok {
+				break
 			}
-		case name == "os.MkdirAll":
-			evs = append(evs, ev{"mkdirall", call.Pos(), call.Args[0]})
-		case name == "os.RemoveAll":
-			if _, isDefer := deferParent(fn.Decl.Body, call); !isDefer {
-				evs = append(evs, ev{"removeall", call.Pos(), call.Args[0]})
+			e, f = a, f.up
+		}
+		return e
+	}
+	helperInline(p, "", nil)
+	var collect func(f *frame, depth int)
+	collect = func(f *frame, depth int) {
+		info := f.fr.Info()
+		ast.Inspect(f.fr.Decl.Body, func(n ast.Node) bool {
+			call, ok := n.(*ast.CallExpr)
+			if !ok {
+				return true
 			}
-		case name == "os.Remove":
-			evs = append(evs, ev{"remove", call.Pos(), call.Args[0]})
-		case name == "os.Rename" && len(call.Args) == 2:
-			srcStaged, dstStaged := derivesFrom(fn, call.Args[0], staging, 0), derivesFrom(fn, call.Args[1], staging, 0)
+			name := p.CalleeName(info, call)
 			switch {
-			case srcStaged && !dstStaged:
-				// staging → final place (also: the moved-away previous copy back into place when that fails)
-				if renameDst == nil {
-					evs = append(evs, ev{"rename", call.Pos(), call.Args[0]})
-					renameDst = call.Args[1]
-				} else if core.ExprStr(call.Args[1]) != core.ExprStr(renameDst) {
-					bad = fmt.Sprintf("%s: a second directory (%s) is moved out of the staging area", p.Pos(call.Pos()), core.ExprStr(call.Args[1]))
+			case name == "os.Create" || name == "os.OpenFile" || name == "os.WriteFile":
+				evs = append(evs, ev{"create", call.Pos(), rooted(f, call.Args[0])})
+				if !isStaged(f, call.Args[0]) {
+					bad = fmt.Sprintf("%s: %s(%s) writes outside the staging directory", p.Pos(call.Pos()), name, core.ExprStr(call.Args[0]))
 				}
-			case !srcStaged && dstStaged:
-				// a visible directory is moved away under a name the directory readers skip
-				evs = append(evs, ev{"moveaway", call.Pos(), call.Args[0]})
+			case strings.HasSuffix(name, ".Unarchive") && len(call.Args) == 2:
+				evs = append(evs, ev{"unarchive", call.Pos(), rooted(f, call.Args[1])})
+				if !isStaged(f, call.Args[1]) {
+					bad = fmt.Sprintf("%s: the archive is unpacked into %s, not into the staging directory", p.Pos(call.Pos()), core.ExprStr(call.Args[1]))
+				}
+			case name == "os.MkdirAll":
+				evs = append(evs, ev{"mkdirall", call.Pos(), rooted(f, call.Args[0])})
+			case name == "os.RemoveAll":
+				if _, isDefer := deferParent(f.fr.Decl.Body, call); !isDefer {
+					what := "removeall"
+					if isStaged(f, call.Args[0]) {
+						what = "removeall-staged"
+					}
+					evs = append(evs, ev{what, call.Pos(), rooted(f, call.Args[0])})
+				}
+			case name == "os.Remove":
+				evs = append(evs, ev{"remove", call.Pos(), rooted(f, call.Args[0])})
+			case name == "os.Rename" && len(call.Args) == 2:
+				srcStaged, dstStaged := isStaged(f, call.Args[0]), isStaged(f, call.Args[1])
+				switch {
+				case srcStaged && !dstStaged:
+					// staging → final place (also: the moved-away previous copy back into place when that fails)
+					if renameDst == nil {
+						evs = append(evs, ev{"rename", call.Pos(), rooted(f, call.Args[0])})
+						renameDst = rooted(f, call.Args[1])
+					} else if core.ExprStr(rooted(f, call.Args[1])) != core.ExprStr(renameDst) {
+						bad = fmt.Sprintf("%s: a second directory (%s) is moved out of the staging area", p.Pos(call.Pos()), core.ExprStr(call.Args[1]))
+					}
+				case !srcStaged && dstStaged:
+					// a visible directory is moved away under a name the directory readers skip
+					evs = append(evs, ev{"moveaway", call.Pos(), rooted(f, call.Args[0])})
+				default:
+					bad = fmt.Sprintf("%s: the rename does not move the staging directory (%s → %s)", p.Pos(call.Pos()), core.ExprStr(call.Args[0]), core.ExprStr(call.Args[1]))
+				}
+			case strings.HasSuffix(name, "registerFileExtensions"):
+				evs = append(evs, ev{"register", call.Pos(), nil})
 			default:
-				bad = fmt.Sprintf("%s: the rename does not move the staging directory (%s → %s)", p.Pos(call.Pos()), core.ExprStr(call.Args[0]), core.ExprStr(call.Args[1]))
+				// an unexported helper of the package: its steps happen here
+				fo, ok := core.Callee(info, call).(*types.Func)
+				if !ok || fo.Pkg() == nil || fo.Pkg().Path() != fn.Pkg.PkgPath || fo.Exported() || depth >= 3 {
+					return true
+				}
+				hr := helperDecls[p][fo]
+				if hr == nil || hr.Decl.Body == nil || hr == f.fr || call.Ellipsis.IsValid() {
+					return true
+				}
+				nf := &frame{fr: hr, staged: map[types.Object]bool{}, args: map[types.Object]ast.Expr{}, up: f}
+				k := 0
+				if hr.Decl.Type.Params != nil {
+					for _, fl := range hr.Decl.Type.Params.List {
+						for _, nm := range fl.Names {
+							if o := hr.Info().Defs[nm]; o != nil && k < len(call.Args) {
+								nf.args[o] = call.Args[k]
+								if isStaged(f, call.Args[k]) {
+									nf.staged[o] = true
+								}
+							}
+							k++
+						}
+					}
+				}
+				collect(nf, depth+1)
+				return false // the arguments were looked at as bindings
 			}
-		case strings.HasSuffix(name, "registerFileExtensions"):
-			evs = append(evs, ev{"register", call.Pos(), nil})
-		}
-		return true
-	})
+			return true
+		})
+	}
+	collect(&frame{fr: fn}, 0)
 	c.Decide(bad == "", "STAGE", key+"/writes", fn.Decl.Pos(), len(evs), "every file is created under the staging directory", bad)
 	// ordering (source order = execution order in this straight-line function)
 	idx := func(what string) int {
@@ -210,7 +276,7 @@ func checkInstallStaging(c *core.Ctx) {
 		order = fmt.Sprintf("a previous copy of %s must be moved out of the way, under a staging name, directly before the rename (nothing that can fail for long, like a download, in between)", core.ExprStr(renameDst))
 	}
 	for _, e := range evs {
-		if e.what == "removeall" && !derivesFrom(fn, e.arg, staging, 0) {
+		if e.what == "removeall" {
 			order = fmt.Sprintf("%s: os.RemoveAll(%s) deletes a directory the readers can see, file by file: an interruption leaves a half deleted version that is still listed — move it away with one rename and delete it afterwards", p.Pos(e.pos), core.ExprStr(e.arg))
 		}
 	}
